@@ -75,16 +75,37 @@ class ChannelCheck(PropCheck):
                 failures.append({"kind": "violation", "key": self.pid + ":stress",
                                  "what": "unscheduled stress run (4 producers, 1 consumer, sends nested in a real SIGUSR1 handler): " + "; ".join(mine[:3]),
                                  "payload": {"stress": stress, "replay_cmd": "harness/target/debug/sighook-harness channel-stress 1500"}})
+        # sequential long histories (tens of thousands of operations, both ways of building a channel): what a
+        # scheduled scenario of a few dozen steps cannot reach, e.g. a counter that wraps
+        import subprocess
+        n_long = 70000 if tier == "quick" else 200000
+        p = subprocess.run([core.HARNESS_BIN, "channel-long", str(n_long)], capture_output=True, text=True, timeout=300)
+        long_lines = [l for l in p.stdout.splitlines() if l.startswith("long ")]
+        dist["long_histories"] = len(long_lines)
+        want_long = ["long default=false overflow-kept=[0, 1, 2, 3, 4] rounds-ok=%d/%d" % (n_long, n_long),
+                     "long default=true overflow-kept=[0, 1, 2, 3, 4] rounds-ok=%d/%d" % (n_long, n_long)]
+        if long_lines != want_long:
+            bad = next((l for l in long_lines if l not in want_long), "exit %d: %s" % (p.returncode, p.stderr[-200:]))
+            is_panic = "PANIC" in bad or p.returncode != 0
+            mine = (self.pid == "C08" and is_panic) or (self.pid == "C06" and not is_panic) or (self.pid == "C07" and not is_panic and not long_lines)
+            failures.append({"kind": "violation" if mine else "disagreement", "key": self.pid + ":long",
+                             "what": "sequential history (5 sends, %d sends onto the full channel, drain; then %d send/recv rounds): expected the first five values in order and every round to hand its value back, got `%s`" % (n_long, n_long, bad),
+                             "payload": {"long": long_lines, "n": n_long}})
         uniq = {}
         for f in failures:
             uniq.setdefault(f["key"], f)
         return {"evaluations": len(results) + len(timpl), "distinct_nontrivial": nontrivial,
-                "rule": "random scenarios (2-4 threads of send/recv bursts up to 7, sends nested on threads that are mid-send/recv as a signal handler would be) on the real Channel under the deterministic scheduler with injected spurious weak-CAS failures; every atomic operation (site, orderings, values) and cell access compared with the Lean model on the same schedule; FIFO / ownership / vector-clock race / drop-once / step-bound monitors on the implementation trace; plus the exhaustive get/set table (2^16 x 5 x 8) by checksum; non-trivial = a value was received or a spurious failure was injected",
+                "rule": "random scenarios (2-4 threads of send/recv bursts up to 7, sends nested on threads that are mid-send/recv as a signal handler would be) on the real Channel under the deterministic scheduler with injected spurious weak-CAS failures; every atomic operation (site, orderings, values) and cell access compared with the Lean model on the same schedule; FIFO / ownership / vector-clock race / drop-once / step-bound monitors on the implementation trace; plus the exhaustive get/set table (2^16 x 5 x 8) by checksum; plus sequential long histories (an overflowing burst of tens of thousands of sends, then as many send/recv rounds) on channels built by new() and by Default; 40% of the scheduled scenarios use a Default-built channel; non-trivial = a value was received or a spurious failure was injected",
                 "samples": [{"scenario": results[0]["scenario"], "schedule": " ".join(results[0]["schedule"]), "trace": results[0]["impl"][:14]}] if results else [],
                 "traces_validated_against_impl": len(results), "steps_compared": steps, "distribution": dist,
                 "table_rows": 65536 * 5 * 9, "failures": list(uniq.values())}
 
     def replay(self, payload):
+        if "long" in payload:
+            import subprocess
+            p = subprocess.run([core.HARNESS_BIN, "channel-long", str(payload["n"])], capture_output=True, text=True, timeout=300)
+            bad = "PANIC" in p.stdout or p.returncode != 0 or any("overflow-kept=[0, 1, 2, 3, 4] rounds-ok=%d/%d" % (payload["n"], payload["n"]) not in l for l in p.stdout.splitlines() if l.startswith("long "))
+            return bad, p.stdout
         if "stress" in payload:
             import subprocess
             p = subprocess.run([core.HARNESS_BIN, "channel-stress", "3000"], capture_output=True, text=True, timeout=120)
